@@ -72,6 +72,7 @@ class Plain:  # a class that is not an exception
 
 CLASSES = [Base, SubA, SubB, Other]
 NAMES = {c.__name__: c for c in CLASSES}
+ROLES = ("Base", "SubA", "SubB", "Other")
 # explicit ancestor table: the reference never asks Python about the hierarchy
 ANCESTORS = {Base: (Base,), SubA: (SubA, Base), SubB: (SubB, Base), Other: (Other,)}
 SYMBOLS = ["obj", "none", "Base", "SubA", "SubB", "Other"]
@@ -80,6 +81,31 @@ SPELLINGS = ("none", "tuple", "list", "set")
 DELAYS = (0, 0.5)
 NONEXC_CLASSES = {"int": int, "str": str, "object": object, "Plain": Plain}
 NONCLASS_MEMBERS = {"instance": Base("an instance"), "string": "Base", "None": None, "zero": 0}
+
+
+def _universes():
+    """The same four roles (a base class, two subclasses, an unrelated class) filled with the harness's own
+    classes, with the library's exception classes, and with built-in ones: the policy must not depend on
+    which classes they are."""
+    import pymemcache.exceptions as X
+    return {
+        "toy": (Base, SubA, SubB, Other),
+        "lib": (X.MemcacheError, X.MemcacheIllegalInputError, X.MemcacheUnexpectedCloseError, ConnectionResetError),
+        "builtin": (LookupError, KeyError, IndexError, ValueError),
+        "oserror": (OSError, ConnectionRefusedError, TimeoutError, X.MemcacheServerError),
+    }
+
+
+UNIVERSE = "toy"
+
+
+def use_universe(name):
+    global CLASSES, NAMES, ANCESTORS, UNIVERSE
+    b, a1, a2, o = _universes()[name]
+    CLASSES = [b, a1, a2, o]
+    NAMES = dict(zip(ROLES, CLASSES))
+    ANCESTORS = {b: (b,), a1: (a1, b), a2: (a2, b), o: (o,)}
+    UNIVERSE = name
 
 
 class ScriptExhausted(BaseException):
@@ -406,8 +432,9 @@ def context(attempts, rf, dnr, seq, i):
 
 
 def detail_of(attempts, delay, rfm, rsp, dnm, dsp, seq, shape):
-    return {"attempts": attempts, "retry_delay": delay, "retry_for": [c.__name__ for c in members(rfm)],
-            "retry_for_spelling": rsp, "do_not_retry_for": [c.__name__ for c in members(dnm)],
+    role = {c: r for r, c in NAMES.items()}
+    return {"attempts": attempts, "retry_delay": delay, "retry_for": [role[c] for c in members(rfm)], "universe": UNIVERSE,
+            "retry_for_spelling": rsp, "do_not_retry_for": [role[c] for c in members(dnm)],
             "do_not_retry_for_spelling": dsp, "sequence": list(seq), "shape": shape}
 
 
@@ -421,6 +448,8 @@ def one(chk, attempts, delay, rfm, rsp, dnm, dsp, seq, shape="op", general=()):
     if bad:
         kind, i, text = bad
         sig = f"{kind}|{context(attempts, rf, dnr, seq, i)}"
+        if UNIVERSE != "toy":
+            sig += f"|classes={UNIVERSE}"
         if sig not in general:
             if shape not in ("op", "op-noargs"):
                 sig += f"|via={shape}"
@@ -445,10 +474,14 @@ def show_coll(ms, how):
 
 def _jobs(tier):
     top = 3 if tier == "quick" else 5
-    jobs = [("invalid",), ("shapes",)]
+    jobs = [("invalid",), ("shapes",), ("kwargs",)]
     for attempts in range(top, 0, -1):
         for rfm in range(16):
-            jobs.append(("grid", attempts, rfm))
+            jobs.append(("grid", attempts, rfm, "toy"))
+    for uni in ("lib", "builtin", "oserror"):
+        for attempts in range(min(top, 3), 0, -1):
+            for rfm in range(16):
+                jobs.append(("grid", attempts, rfm, uni))
     return jobs
 
 
@@ -460,7 +493,8 @@ def seq_code(seq):
 
 
 def _grid(job, chk):
-    _, attempts, rfm = job
+    _, attempts, rfm, uni = job
+    use_universe(uni)
     rf = members(rfm)
     for dnm in range(16):
         if rfm & dnm:
@@ -476,13 +510,13 @@ def _grid(job, chk):
                 for dsp in spellings_for(dnm):
                     for delay in DELAYS:
                         log, ending = one(chk, attempts, delay, rfm, rsp, dnm, dsp, seq)
-        if attempts == 3 and rfm == 1 and dnm == 2:
+        if uni == "toy" and attempts == 3 and rfm == 1 and dnm == 2:
             seq = ("SubB", "SubA")
             log, ending = run_case(3, 0.5, spell(rfm, "list"), spell(dnm, "set"), seq)[:2]
             chk.sample({"attempts": 3, "retry_delay": 0.5, "retry_for": "[Base]", "do_not_retry_for": "{SubA}",
                         "wrapped_call_outcomes": list(seq), "observed_log": show_log(log),
                         "ended": ending[0] + ":" + type(ending[1]).__name__ if len(ending) > 1 else ending[0]})
-        if attempts == 2 and rfm == 8 and dnm == 0:
+        if uni == "toy" and attempts == 2 and rfm == 8 and dnm == 0:
             seq = ("Other", "none")
             log, ending = run_case(2, 0, spell(rfm, "tuple"), None, seq)[:2]
             chk.sample({"attempts": 2, "retry_delay": 0, "retry_for": "(Other,)", "do_not_retry_for": None,
@@ -591,9 +625,70 @@ def _shapes(chk):
                     chk.count("entry_point_cases")
 
 
+class KwInner:
+    """Wrapped client with the real Client's method signatures: records how each call arrived."""
+
+    def __init__(self, fail_first):
+        self.calls = []
+        self.fail_first = fail_first
+
+
+def _mk_kw(name, sig):
+    def f(self, *a, **kw):
+        self.calls.append((name, a, kw))
+        if len(self.calls) <= self.fail_first:
+            raise Base(f"attempt {len(self.calls)}")
+        return ("result", name)
+
+    f.__name__ = name
+    f.__signature__ = sig
+    return f
+
+
+import inspect as _inspect  # noqa: E402
+
+for _n in CLIENT_METHODS + ["get", "set", "delete", "touch"]:
+    setattr(KwInner, _n, _mk_kw(_n, _inspect.signature(getattr(_RealClient, _n))))
+
+
+def _kwargs(chk, only=None):
+    """Every public Client method called through RetryingClient with ALL of its parameters passed by keyword
+    (their real names): the wrapped method receives exactly those keyword arguments, on every attempt."""
+    marker = object()
+    for name in sorted(set(CLIENT_METHODS + ["get", "set", "delete", "touch"])):
+        if only is not None and name != only:
+            continue
+        params = [p for p in list(_inspect.signature(getattr(_RealClient, name)).parameters.values())[1:]
+                  if p.kind in (p.POSITIONAL_OR_KEYWORD, p.KEYWORD_ONLY)]
+        kw = {p.name: (marker, p.name) for p in params}
+        for fail_first in (0, 1):
+            inner = KwInner(fail_first)
+            rc = RetryingClient(inner, attempts=2, retry_delay=0)
+            try:
+                res = ("ret", getattr(rc, name)(**kw))
+            except Exception as e:  # noqa
+                res = ("exc", e)
+            chk.add()
+            chk.outcome(("kwargs", name, fail_first, res[0]))
+            want_calls = [(name, (), kw)] * (fail_first + 1)
+            bad = None
+            if res[0] == "exc":
+                bad = f"raised {type(res[1]).__name__}: {res[1]}"
+            elif inner.calls != want_calls:
+                bad = f"the wrapped method was called as {inner.calls!r}"
+            if bad:
+                chk.violation(f"keyword-arguments-not-forwarded|{name}",
+                              f"RetryingClient(attempts=2).{name}({', '.join(k + '=...' for k in kw)}) with the wrapped call failing "
+                              f"{fail_first} time(s) first: {bad}; expected {fail_first + 1} call(s) with exactly these keyword arguments",
+                              {"kwargs_call": name})
+
+
 def _worker(job, chk):
+    use_universe("toy")
     if job[0] == "grid":
         _grid(job, chk)
+    elif job[0] == "kwargs":
+        _kwargs(chk)
     elif job[0] == "invalid":
         _invalid(chk)
     elif job[0] == "shapes":
@@ -632,6 +727,11 @@ def replay(detail):
         print(f"    RetryingClient(attempts={c['attempts']}, retry_for={show_coll(c['rf'], c['rsp'])}, "
               f"do_not_retry_for={show_coll(c['dnr'], c['dsp'])}) -> {'constructed' if e is None else repr(e)}")
         return [] if e is not None else [f"invalid configuration ({d['reason']}) accepted"]
+    use_universe(detail.get("universe", "toy"))
+    if "kwargs_call" in detail:
+        tmp = runner.Check(PROPERTY, LEVEL, "replay", 0)
+        _kwargs(tmp, only=detail["kwargs_call"])
+        return [v["what"] for v in tmp.violations.values()]
     mask = lambda names: sum(1 << CLASSES.index(NAMES[n]) for n in names)  # noqa
     rfm, dnm = mask(detail["retry_for"]), mask(detail["do_not_retry_for"])
     delay = detail["retry_delay"]
